@@ -434,3 +434,338 @@ Proof.
   - rewrite H, H1. auto.
   - rewrite H. auto.
 Qed.
+
+(* ================================================= C. threshold writers: the closed form ================================================= *)
+(* A class of machines: while [live], a call on a non-empty buffer is answered Interrupted, Ok(1 <= n <= |buf|) or Err(kind);
+   with a threshold [Some k] it fails only once k bytes were accepted and never accepts beyond k; with [None] it never fails.
+   (What happens after the first Err is irrelevant: the serializer never gets there.)
+   For such a machine the run is determined by k alone — chunking and interruptions are unobservable. *)
+Section Threshold.
+  Context {St : Type} (m : wmachine St) (proj : St -> bytes) (live : St -> Prop) (kk : option nat) (kind : N).
+  Hypothesis Hacc : tracks_accepted m proj.
+  Hypothesis Hinit : live (wm_init m) /\ proj (wm_init m) = [].
+  Hypothesis Hgood : forall s buf, live s -> buf <> [] ->
+    good_resp (fst (wm_step m s buf)) buf \/ fst (wm_step m s buf) = RFail kind.
+  Hypothesis Hlive : forall s buf, live s -> (forall kd, fst (wm_step m s buf) <> RFail kd) -> live (snd (wm_step m s buf)).
+  Hypothesis Hthr : forall s buf, live s ->
+    match kk with
+    | Some k => length (proj s) <= k ->
+                (forall kd, fst (wm_step m s buf) = RFail kd -> k <= length (proj s)) /\ length (proj (snd (wm_step m s buf))) <= k
+    | None => forall kd, fst (wm_step m s buf) <> RFail kd
+    end.
+
+  Lemma thr_replay_good : forall hist, log_good (oracle_of_machine m) hist ->
+    live (mreplay m hist) /\ match kk with Some k => length (proj (mreplay m hist)) <= k | None => True end.
+  Proof.
+    induction hist as [|b h IH]; intros HG.
+    - cbn [mreplay]. destruct Hinit as [H1 H2]. split; [exact H1|]. destruct kk; [rewrite H2; cbn [length]; lia|exact I].
+    - cbn [log_good] in HG. destruct HG as [_ [Hr HG]]. destruct (IH HG) as [Hl Hk].
+      unfold oracle_of_machine in Hr. cbn [mreplay].
+      assert (Hnf : forall kd, fst (wm_step m (mreplay m h) b) <> RFail kd).
+      { intros kd E. rewrite E in Hr. destruct Hr. }
+      split; [exact (Hlive _ _ Hl Hnf)|]. pose proof (Hthr (mreplay m h) b Hl) as Ht.
+      destruct kk as [k|]; [exact (proj2 (Ht Hk))|exact I].
+  Qed.
+
+  Theorem thr_closed fuel bufs :
+    let g := gfeed fuel (oracle_of_machine m) g0 bufs in
+    snd g <> OutOfFuel ->
+    match kk with
+    | Some k => if Nat.ltb k (length (concat bufs))
+                then gacc (fst g) = firstn k (concat bufs) /\ snd g = Err (Io kind) O
+                else gacc (fst g) = concat bufs /\ snd g = Ok tt
+    | None => gacc (fst g) = concat bufs /\ snd g = Ok tt
+    end.
+  Proof.
+    cbv zeta. intros Hoof.
+    pose proof (gfeed_proj m proj Hacc fuel bufs (proj2 Hinit)) as Hpj. cbv zeta in Hpj.
+    destruct (gfeed_spec (oracle_of_machine m) fuel bufs g0 I) as [[R [A1 [_ A3]]]|[R [done [b [rest [pre [s [B1 [B2 [B3 [B4 [_ B6]]]]]]]]]]]].
+    - cbn [g0 gstart gacc app] in A1. destruct (thr_replay_good _ A3) as [_ Hk].
+      destruct kk as [k|]; [|auto]. rewrite Hpj, A1 in Hk.
+      destruct (Nat.ltb k (length (concat bufs))) eqn:El; [apply Nat.ltb_lt in El; lia|auto].
+    - cbn [g0 gstart gacc app] in B4.
+      destruct B6 as [[E _]|[h [Eh [G Bad]]]]; [contradiction|].
+      destruct (thr_replay_good _ G) as [Hl Hk].
+      unfold oracle_of_machine in Bad.
+      pose proof (Hacc (mreplay m h) s) as Ha. pose proof (Hthr (mreplay m h) s Hl) as Ht.
+      destruct (Hgood (mreplay m h) s Hl B3) as [Hg|Hf]; [exfalso; exact (good_not_bad _ _ _ Hg Bad)|].
+      rewrite Hf in Bad, Ha. cbn [bad_answer] in Bad.
+      rewrite Eh in Hpj. cbn [mreplay] in Hpj. rewrite Ha in Hpj.
+      destruct kk as [k|]; [|exfalso; exact (Ht kind Hf)].
+      destruct (Ht Hk) as [Ht1 _]. specialize (Ht1 kind Hf).
+      assert (Hlen : length (gacc (fst (gfeed fuel (oracle_of_machine m) g0 bufs))) = k) by (rewrite <- Hpj; lia).
+      assert (Hout : concat bufs = gacc (fst (gfeed fuel (oracle_of_machine m) g0 bufs)) ++ s ++ concat rest).
+      { rewrite B4, B1, concat_app. cbn [concat]. rewrite B2, <- !app_assoc. reflexivity. }
+      assert (Hs : 1 <= length s) by (destruct s; [congruence|cbn [length]; lia]).
+      assert (El : Nat.ltb k (length (concat bufs)) = true).
+      { apply Nat.ltb_lt. rewrite Hout, !app_length. lia. }
+      rewrite El. split; [|exact Bad].
+      rewrite Hout, <- Hlen. rewrite <- (Nat.add_0_r (length _)), firstn_app_2. cbn [firstn]. rewrite app_nil_r. reflexivity.
+  Qed.
+End Threshold.
+
+(* ---- the ChunkWriter with `fail_at` (persistent or one-shot), or without any failure ---- *)
+Theorem cw_feed_closed p fuel bufs : p_cap p = None -> sched_ok (p_sched p) = true -> cw_fuel p bufs <= fuel ->
+  let g := gfeed fuel (cwo p) g0 bufs in
+  match p_fail_at p with
+  | Some k => if Nat.ltb k (length (concat bufs))
+              then gacc (fst g) = firstn k (concat bufs) /\ snd g = Err (Io (p_kind p)) O
+              else gacc (fst g) = concat bufs /\ snd g = Ok tt
+  | None => gacc (fst g) = concat bufs /\ snd g = Ok tt
+  end.
+Proof.
+  intros Hc Hok Hf.
+  apply (thr_closed (cw_machine p) c_accepted (fun s => c_fired s = false) (p_fail_at p) (p_kind p)).
+  - exact (cw_write_acc p).
+  - split; reflexivity.
+  - intros s buf _ Hb. exact (cw_write_good p s buf Hb).
+  - intros s buf Hl Hn. cbn [cw_machine wm_step] in Hn |- *. destruct (cw_write_flags p s buf) as [_ [_ H3]].
+    destruct (fst (cw_write p s buf)) as [n| |kd]; [congruence|congruence|exfalso; exact (Hn kd eq_refl)].
+  - intros s buf Hl. cbn [cw_machine wm_step]. destruct (p_fail_at p) as [k|] eqn:Ef.
+    + intros Hk. exact (cw_write_threshold p k s buf Hc Ef Hl Hk).
+    + exact (cw_write_never_fails p s buf Hc Ef).
+  - exact (cw_total p fuel bufs Hok Hf).
+Qed.
+
+(* closed form of the harness's `wf` runs in the modes "-", "<k>" and "o<k>": whatever the chunking, the writer ends up with exactly
+   the first k bytes of the fault-free output and Err (Io kind) — or with everything and the fault-free outcome when k >= |output| *)
+Theorem cw_fail_at_closed {A} p fuel (t : tr A) : p_cap p = None -> sched_ok (p_sched p) = true -> cw_fuel p (fst t) <= fuel ->
+  let x := cw_run p fuel t in
+  let out := concat (fst t) in
+  match p_fail_at p with
+  | Some k => if Nat.ltb k (length out)
+              then cr_accepted x = firstn k out /\ cr_result x = Err (Io (p_kind p)) O /\ cr_fired x = true /\ cr_after x = 0
+              else cr_accepted x = out /\ cr_result x = snd t /\ cr_fired x = false /\ cr_after x = 0
+  | None => cr_accepted x = out /\ cr_result x = snd t /\ cr_fired x = false /\ cr_after x = 0
+  end.
+Proof.
+  intros Hc Hok Hf. cbv zeta. rewrite cw_run_unfold. cbv zeta. cbn [cr_accepted cr_result cr_fired cr_after].
+  pose proof (cw_feed_closed p fuel (fst t) Hc Hok Hf) as Hcl. cbv zeta in Hcl.
+  destruct (cw_feed_spec p fuel (fst t)) as [H1 [Ha [_ H]]]. rewrite H1, Ha.
+  assert (Hfired : forall b, (b = true <-> snd (gfeed fuel (cwo p) g0 (fst t)) <> Ok tt) ->
+            c_fired (mreplay (cw_machine p) (ghist (fst (gfeed fuel (cwo p) g0 (fst t))))) = b).
+  { intros b Hb. destruct H as [[H [Hfi _]]|[[H Hfi]|[H Hfi]]]; rewrite Hfi; destruct b; try reflexivity.
+    - exfalso. exact (proj1 Hb eq_refl H).
+    - exfalso. apply (cw_total p fuel (fst t) Hok Hf). exact H.
+    - symmetry. apply (proj2 Hb). rewrite H. discriminate. }
+  destruct (p_fail_at p) as [k|]; [destruct (Nat.ltb k (length (concat (fst t))))|]; destruct Hcl as [Hg Hr]; rewrite Hg, Hr; cbn [mlift];
+    (split; [reflexivity|]); (split; [reflexivity|]); (split; [|reflexivity]); apply Hfired; rewrite Hr;
+    split; try discriminate; try reflexivity; intros; congruence.
+Qed.
+
+(* the one-shot flag cannot be observed through the serializer: same accepted bytes, same outcome, same flags *)
+Corollary cw_one_shot_is_persistent {A} ch sc fa kd fuel (t : tr A) : sched_ok sc = true ->
+  cw_fuel (mkCWP ch sc fa kd true None) (fst t) <= fuel ->
+  cw_run (mkCWP ch sc fa kd true None) fuel t = cw_run (mkCWP ch sc fa kd false None) fuel t.
+Proof.
+  intros Hok Hf.
+  pose proof (cw_fail_at_closed (mkCWP ch sc fa kd true None) fuel t eq_refl Hok Hf) as H1.
+  pose proof (cw_fail_at_closed (mkCWP ch sc fa kd false None) fuel t eq_refl Hok Hf) as H2.
+  cbv zeta in H1, H2. cbn [p_fail_at p_kind] in H1, H2.
+  destruct (cw_run (mkCWP ch sc fa kd true None) fuel t) as [a1 r1 n1 f1].
+  destruct (cw_run (mkCWP ch sc fa kd false None) fuel t) as [a2 r2 n2 f2].
+  cbn [cr_accepted cr_result cr_fired cr_after] in H1, H2.
+  destruct fa as [k|]; [destruct (Nat.ltb k (length (concat (fst t))))|];
+    destruct H1 as [-> [-> [-> ->]]]; destruct H2 as [-> [-> [-> ->]]]; reflexivity.
+Qed.
+
+(* ---- the writers of Model/Ser.v are threshold machines too ---- *)
+Lemma old_replay w : forall hist, mreplay (old_machine w) hist = replay w hist.
+Proof. induction hist as [|b h IH]; [reflexivity|]. cbn [mreplay replay old_machine wm_step snd]. rewrite <- IH. reflexivity. Qed.
+
+Lemma old_oracle w h b : oracle_of_writer w h b = oracle_of_machine (old_machine w) h b.
+Proof. unfold oracle_of_writer, oracle_of_machine. rewrite old_replay. reflexivity. Qed.
+
+Lemma write_once_threshold w buf : buf <> [] ->
+  fail_at (fst (write_once w buf)) = fail_at w
+  /\ match snd (write_once w buf) with
+     | WOk n => 1 <= n <= length buf
+     | WInterrupted => True
+     | WErr kd => exists k, fail_at w = Some (k, kd) /\ k <= length (accepted w)
+     end
+  /\ (forall k kd, fail_at w = Some (k, kd) -> length (accepted w) <= k -> length (accepted (fst (write_once w buf))) <= k).
+Proof.
+  intros Hb. assert (Hl : 1 <= length buf) by (destruct buf; [congruence|cbn [length]; lia]).
+  unfold write_once.
+  destruct (sched w) as [|c rs]; [|destruct (Nat.eqb c 0) eqn:Ec];
+    (destruct (fail_at w) as [[k kd]|] eqn:Ef; [destruct (Nat.leb k (length (accepted w))) eqn:Ek|]);
+    cbn [fst snd accepted fail_at]; cw_arith;
+    (split; [reflexivity|]); (split; [try exact I; try lia; try (exists k; split; [reflexivity|lia])|]);
+    intros k' kd' E; try discriminate E; try (injection E as <- <-); intros Hk; try rewrite app_length, firstn_length; lia.
+Qed.
+
+Theorem old_feed_closed (w : writer) (bufs : list bytes) : accepted w = [] ->
+  match fail_at w with
+  | Some (k, kd) => if Nat.ltb k (length (concat bufs))
+                    then accepted (fst (feed w bufs)) = firstn k (concat bufs) /\ snd (feed w bufs) = Err (Io kd) O
+                    else accepted (fst (feed w bufs)) = concat bufs /\ snd (feed w bufs) = Ok tt
+  | None => accepted (fst (feed w bufs)) = concat bufs /\ snd (feed w bufs) = Ok tt
+  end.
+Proof.
+  intros Hw.
+  set (fuel := S (length (sched w) + length (concat bufs))).
+  (* the oracle run is the old run *)
+  destruct (sim_feed w fuel bufs g0) as [_ [X2 X3]]; [exact Hw| |].
+  { intros b Hi. cbn [g0 gstart ghist replay]. pose proof (in_length_concat b bufs Hi). unfold fuel. lia. }
+  cbn [g0 gstart ghist replay] in X2, X3. fold g0 in X2, X3.
+  rewrite (gfeed_ext _ _ (old_oracle w)) in X2, X3.
+  assert (Hoof : snd (gfeed fuel (oracle_of_machine (old_machine w)) g0 bufs) <> OutOfFuel).
+  { rewrite X3. destruct (feed_spec bufs w) as [p [s [_ [_ [_ [[E _]|[k [kd [_ [E _]]]]]]]]]]; rewrite E; discriminate. }
+  pose proof (thr_closed (old_machine w) accepted (fun w1 => fail_at w1 = fail_at w)
+                (match fail_at w with Some (k, _) => Some k | None => None end)
+                (match fail_at w with Some (_, kd) => kd | None => 0%N end)) as T.
+  rewrite <- X2, <- X3.
+  assert (T' := fun H1 H2 H3 H4 H5 => T H1 H2 H3 H4 H5 fuel bufs Hoof). clear T.
+  assert (Tc : match match fail_at w with Some (k, _) => Some k | None => None end with
+               | Some k => if Nat.ltb k (length (concat bufs))
+                           then gacc (fst (gfeed fuel (oracle_of_machine (old_machine w)) g0 bufs)) = firstn k (concat bufs)
+                                /\ snd (gfeed fuel (oracle_of_machine (old_machine w)) g0 bufs)
+                                   = Err (Io match fail_at w with Some (_, kd) => kd | None => 0%N end) O
+                           else gacc (fst (gfeed fuel (oracle_of_machine (old_machine w)) g0 bufs)) = concat bufs
+                                /\ snd (gfeed fuel (oracle_of_machine (old_machine w)) g0 bufs) = Ok tt
+               | None => gacc (fst (gfeed fuel (oracle_of_machine (old_machine w)) g0 bufs)) = concat bufs
+                         /\ snd (gfeed fuel (oracle_of_machine (old_machine w)) g0 bufs) = Ok tt
+               end).
+  { apply T'; clear T'.
+    - intros s buf. cbn [old_machine wm_step fst snd]. pose proof (write_once_facts s buf) as [_ H].
+      destruct (snd (write_once s buf)); cbn [resp_of_wres]; exact H.
+    - split; [reflexivity|exact Hw].
+    - intros s buf Hl Hb. cbn [old_machine wm_step fst snd]. destruct (write_once_threshold s buf Hb) as [_ [H _]].
+      destruct (snd (write_once s buf)) as [n| |kd]; cbn [resp_of_wres good_resp]; [left; exact H|left; exact I|].
+      right. destruct H as [k [E _]]. rewrite <- Hl, E. reflexivity.
+    - intros s buf Hl _. cbn [old_machine wm_step fst snd].
+      destruct buf as [|b0 r0].
+      + unfold write_once. destruct (sched s) as [|c rs]; [|destruct (Nat.eqb c 0)];
+          (destruct (fail_at s) as [[k kd]|] eqn:Ef; [destruct (Nat.leb k (length (accepted s)))|]); cbn [fst fail_at]; congruence.
+      + destruct (write_once_threshold s (b0 :: r0)) as [H _]; [discriminate|]. congruence.
+    - intros s buf Hl. cbn [old_machine wm_step fst snd].
+      destruct buf as [|b0 r0].
+      { (* the empty buffer (never offered by write_all): direct computation *)
+        unfold write_once. rewrite <- Hl.
+        destruct (sched s) as [|c rs]; [|destruct (Nat.eqb c 0)];
+          (destruct (fail_at s) as [[k kd]|] eqn:Ef; [destruct (Nat.leb k (length (accepted s))) eqn:Ek|]);
+          cbn [fst snd accepted resp_of_wres length]; cw_arith;
+          try (intros Hk; split; [intros kd' E; try discriminate E; lia|try rewrite app_length, firstn_length; cbn [length]; lia]);
+          intros kd' E; discriminate E. }
+      destruct (write_once_threshold s (b0 :: r0)) as [_ [H2 H3]]; [discriminate|]. rewrite <- Hl.
+      destruct (fail_at s) as [[k kd]|] eqn:Ef.
+      + intros Hk. split; [|exact (H3 k kd eq_refl Hk)].
+        intros kd' E. destruct (snd (write_once s (b0 :: r0))) as [n| |kd'']; cbn [resp_of_wres] in E; try discriminate E.
+        destruct H2 as [k' [E2 Hk']]. congruence.
+      + intros kd' E. destruct (snd (write_once s (b0 :: r0))) as [n| |kd'']; cbn [resp_of_wres] in E; try discriminate E.
+        destruct H2 as [k' [E2 _]]. discriminate E2. }
+  destruct (fail_at w) as [[k kd]|]; exact Tc.
+Qed.
+
+(* the closed form of Model/Ser.v's `run_writer`: it does not depend on the schedule *)
+Theorem old_closed {A} (sc : list nat) (fa : option (nat * N)) (t : tr A) :
+  let r := run_writer (mkW [] sc fa) t in
+  let out := concat (fst t) in
+  match fa with
+  | Some (k, kd) => if Nat.ltb k (length out)
+                    then accepted (fst r) = firstn k out /\ snd r = Err (Io kd) O
+                    else accepted (fst r) = out /\ snd r = snd t
+  | None => accepted (fst r) = out /\ snd r = snd t
+  end.
+Proof.
+  cbv zeta. pose proof (old_feed_closed (mkW [] sc fa) (fst t) eq_refl) as H. cbn [fail_at] in H.
+  unfold run_writer. destruct (feed (mkW [] sc fa) (fst t)) as [w1 r1]. cbn [fst snd] in H.
+  destruct fa as [[k kd]|]; [destruct (Nat.ltb k (length (concat (fst t))))|]; destruct H as [H1 ->]; cbn [fst snd]; auto.
+Qed.
+
+(* In the modes without cap — persistent AND one-shot — the ChunkWriter machine (cyclic schedule, any chunk) gives exactly the accepted
+   bytes and the outcome of Model/Ser.v's writer model [run_writer], whatever (unrolled, finite) schedule [sc] the latter is given *)
+Theorem machine_persistent_is_old {A} (p : cwp) (sc : list nat) (fuel : nat) (t : tr A) :
+  p_cap p = None -> sched_ok (p_sched p) = true -> cw_fuel p (fst t) <= fuel ->
+  let fa := match p_fail_at p with Some k => Some (k, p_kind p) | None => None end in
+  cr_accepted (cw_run p fuel t) = accepted (fst (run_writer (mkW [] sc fa) t))
+  /\ cr_result (cw_run p fuel t) = snd (run_writer (mkW [] sc fa) t).
+Proof.
+  intros Hc Hok Hf. cbv zeta.
+  pose proof (cw_fail_at_closed p fuel t Hc Hok Hf) as H1. cbv zeta in H1.
+  pose proof (old_closed sc (match p_fail_at p with Some k => Some (k, p_kind p) | None => None end) t) as H2. cbv zeta in H2.
+  destruct (p_fail_at p) as [k|]; [destruct (Nat.ltb k (length (concat (fst t))))|];
+    destruct H1 as [-> [-> _]]; destruct H2 as [-> ->]; auto.
+Qed.
+
+(* ================================================= the drivers ================================================= *)
+Module DriverEq.
+  Import SJ.Extract.Driver SJ.Extract.Driver_ser SJ.Extract.Driver_wgen.
+  Open Scope N_scope.
+
+  (* a field is "-" or it is not *)
+  Lemma dash_dec (k : bytes) : k = [45] \/ (forall X (a b : X), match k with [45] => a | _ => b end = b).
+  Proof.
+    destruct k as [|b0 [|b1 r]]; [right; reflexivity| |right; intros; destruct b0 as [|q]; [reflexivity|];
+      repeat (match goal with |- context [match ?q with xI _ => _ | xO _ => _ | xH => _ end] => destruct q end); reflexivity].
+    destruct (N.eqb_spec b0 45) as [->|Hne]; [left; reflexivity|right]. intros X a b.
+    destruct b0 as [|q]; [reflexivity|].
+    repeat (match goal with |- context [match ?q with xI _ => _ | xO _ => _ | xH => _ end] => destruct q end); try reflexivity.
+    congruence.
+  Qed.
+
+  Lemma sched_of_cycle ch total :
+    match cycle_of ch with
+    | Some cyc => sched_ok cyc = true /\ exists sc, sched_of ch total = Some sc
+    | None => sched_of ch total = None
+    end.
+  Proof.
+    unfold cycle_of, sched_of.
+    destruct ch as [|b0 r]; [reflexivity|].
+    destruct b0 as [|q]; [reflexivity|].
+    repeat (match goal with |- context [match ?q with xI _ => _ | xO _ => _ | xH => _ end] => destruct q end); try reflexivity.
+    - (* 115 *)
+      destruct (forallb (fun n => Nat.eqb n 0) (map (fun d => N.to_nat (N_of_dec d)) (split_on 44 r))) eqn:E; [reflexivity|].
+      split; [|eexists; reflexivity]. unfold sched_ok. rewrite E. destruct (map _ _); reflexivity.
+    - (* 97 *)
+      destruct r; [|reflexivity]. split; [reflexivity|eexists; reflexivity].
+  Qed.
+
+  Lemma show_wf_ext {A} w1 w2 (r : res A) : accepted w1 = accepted w2 -> show_wf (w1, r) = show_wf (w2, r).
+  Proof. intros E. unfold show_wf. rewrite E. reflexivity. Qed.
+
+  (* On the k-specs that Driver_ser.v knows ("-" and "<k>": everything that does not start with "o" or "b") the new driver, which runs the
+     ChunkWriter machine with its cyclic schedule, gives the answer of Driver_ser.v's `wf`, which runs Model/Ser.v's writer on the unrolled
+     schedule — for every line, well-formed or not. *)
+  Theorem dispatch_wgen_is_dispatch_ser (c f ft k kind ch sv : bytes) : is_ext_kspec k = false ->
+    dispatch_wgen [[119; 102]; c; f; ft; k; kind; ch; sv] = dispatch_ser [[119; 102]; c; f; ft; k; kind; ch; sv].
+  Proof.
+    intros Hk. unfold dispatch_wgen, dispatch_ser. cbv beta iota.
+    destruct (fmt_of f) as [F|]; [|reflexivity]. destruct (parse_ftab ft) as [tab|]; [|reflexivity].
+    destruct (sval_of_field sv) as [v|]; [|reflexivity].
+    set (t := serialize_trace (cfg_of c) (ftab_lookup tab false) (ftab_lookup tab true) F v). cbv zeta.
+    pose proof (sched_of_cycle ch (length (concat (fst t)) + length (fst t))%nat) as Hs.
+    destruct (cycle_of ch) as [cyc|]; [|rewrite Hs; reflexivity].
+    destruct Hs as [Hok [sc ->]].
+    assert (Hks : kspec_of k = Some (match k with [45] => KNever | _ => KPersist (N.to_nat (N_of_dec k)) end)).
+    { unfold kspec_of. destruct k as [|b0 r]; [reflexivity|]. cbn [is_ext_kspec] in Hk. apply Bool.orb_false_iff in Hk.
+      destruct Hk as [H1 H2]. rewrite H1, H2. reflexivity. }
+    rewrite Hks. clear Hks.
+    set (fa := match k with [45] => None | _ => Some (N.to_nat (N_of_dec k), N_of_dec kind) end).
+    set (ks := match k with [45] => KNever | _ => KPersist (N.to_nat (N_of_dec k)) end).
+    set (p := params_of ks (N_of_dec kind) cyc).
+    assert (Hp : p_cap p = None /\ p_sched p = cyc
+                 /\ fa = match p_fail_at p with Some k' => Some (k', p_kind p) | None => None end /\ extended ks = false).
+    { unfold p, ks, fa. destruct (dash_dec k) as [->|Hd]; [repeat split|]. rewrite !Hd. repeat split. }
+    destruct Hp as [Hc [Hsc [Hfa Hext]]]. rewrite Hext.
+    destruct (machine_persistent_is_old p sc (cw_fuel p (fst t)) t Hc) as [H1 H2]; [rewrite Hsc; exact Hok|apply le_n|].
+    cbv zeta in H1, H2. rewrite <- Hfa in H1, H2.
+    unfold show_cw. rewrite app_nil_r. rewrite H2.
+    destruct (run_writer (mkW [] sc fa) t) as [w r] eqn:Er. cbn [fst snd] in H1 |- *.
+    apply show_wf_ext. exact H1.
+  Qed.
+End DriverEq.
+
+Print Assumptions mrun_is_grun.
+Print Assumptions cw_run_is_grun.
+Print Assumptions cw_prefix.
+Print Assumptions cw_fired.
+Print Assumptions cw_not_fired.
+Print Assumptions cw_failing_call_is_last.
+Print Assumptions cw_total.
+Print Assumptions cw_run_spec.
+Print Assumptions cw_fail_at_closed.
+Print Assumptions cw_one_shot_is_persistent.
+Print Assumptions old_closed.
+Print Assumptions machine_persistent_is_old.
+Print Assumptions DriverEq.dispatch_wgen_is_dispatch_ser.
